@@ -1,6 +1,6 @@
 (* C13 - directional variograms obey the symmetries of direction. *)
 From Coq Require Import Reals Lra.
-From SG Require Import Gen.Direction Proofs.DirectionP.
+From SG Require Import Gen.Direction Proofs.DirectionP Proofs.SectorsP.
 Local Open Scope R_scope.
 
 (* a tolerance of 180 degrees (no bandwidth limit) selects every pair of distinct points *)
@@ -30,7 +30,24 @@ Theorem C13_azimuth_rotated az phi :
 Proof. exact (dir_rotated az phi). Qed.
 Print Assumptions C13_azimuth_rotated.
 
-(* PARTIAL: the sector clauses (sectors tiling the half circle cover every non-degenerate pair; counts add
-   up off the boundaries) are checked by the harness on the implementation only. *)
-Example C13_nonvacuous : (3 / 5) * (3 / 5) + (4 / 5) * (4 / 5) = 1.
-Proof. lra. Qed.
+(* k sectors of width w = 180/k degrees tiling the half circle (azimuths -90 + w/2 + t*w, t < k): every pair of distinct
+   points is selected by at least one of them ... *)
+Theorem C13_sectors_cover (k : nat) (w dx dy n d : R) :
+  (0 < k)%nat -> w * INR k = 180 -> 0 < n -> n * n = dx * dx + dy * dy ->
+  exists t : nat, (t < k)%nat /\ compass (-90 + w / 2 + INR t * w) w (pair_angle dx dy n) d.
+Proof. exact (sectors_cover_pairs k w dx dy n d). Qed.
+Print Assumptions C13_sectors_cover.
+
+(* ... and a pair selected by two different sectors lies exactly on the boundary of both (its folded angle to either
+   azimuth line equals half the sector width): off the boundaries each pair is selected exactly once, so the
+   per-sector pair counts add up to the isotropic count. *)
+Theorem C13_sectors_overlap_on_boundary (k : nat) (w theta d : R) (t t' : nat) :
+  (0 < k)%nat -> w * INR k = 180 -> - PI <= theta <= PI -> (t < k)%nat -> (t' < k)%nat -> t <> t' ->
+  compass (-90 + w / 2 + INR t * w) w theta d -> compass (-90 + w / 2 + INR t' * w) w theta d ->
+  fold (Rabs (theta + (-90 + w / 2 + INR t * w) * PI / 180)) = w / 2 * PI / 180 /\
+  fold (Rabs (theta + (-90 + w / 2 + INR t' * w) * PI / 180)) = w / 2 * PI / 180.
+Proof. exact (sectors_overlap_on_boundary k w theta d t t'). Qed.
+Print Assumptions C13_sectors_overlap_on_boundary.
+
+Example C13_nonvacuous : (3 / 5) * (3 / 5) + (4 / 5) * (4 / 5) = 1 /\ ((0 < 4)%nat /\ 45 * INR 4 = 180 /\ - PI <= 0 <= PI).
+Proof. split; [lra|exact sectors_example]. Qed.
